@@ -3,7 +3,7 @@ import itertools
 import wire
 from wire import mk_fmt, cells
 from curtsies.formatstring import FmtStr, Chunk
-from props.common import chunks_for, reply_fmt, guarded, canon_cells, PALETTE
+from props.common import chunks_for, reply_fmt, guarded, canon_eff_cells, eff_cells, PALETTE
 
 PROP = "C09"
 MODULES = ["Curtsies.Properties.C09", "Curtsies.Properties.C09Setitem"]
@@ -198,9 +198,11 @@ def impl(c):
 
 def expected(c):
     """the property: Python list splice on the per-character lists of the operands"""
-    cs = wire.cells_of_chunks(c["f"])
+    # "every character keeping its own formatting" = what the character shows: EFFECTIVE formatting (an explicit False
+    # style and an absent key are the same formatting; the raw dicts are compared at representation level)
+    cs = wire.eff_cells_of_chunks(c["f"])
     k, v = c["new"]
-    nc = [(ch, ()) for ch in v] if k == "s" else wire.cells_of_chunks(v)
+    nc = [(ch, ()) for ch in v] if k == "s" else wire.eff_cells_of_chunks(v)
     if c["op"] == "setitem":        # in the oracle's domain only for 0 <= start < len and a one-character value
         return cs[:c["start"]] + nc + cs[c["start"] + 1:]
     if c["op"] == "append":
@@ -252,7 +254,7 @@ def oracle(c, model_reply=None):
     except Exception as e:  # noqa: BLE001
         return ("%s raised %s" % (c["op"], type(e).__name__), None)
     try:    # observing the result must not raise either
-        got, rs, rl = cells(r), r.s, len(r)
+        got, rs, rl = eff_cells(cells(r)), r.s, len(r)
         after_f, after_new, chunks_f = snapshot(f), snapshot(new), wire.fmt_chunks(f)
         if (run_ids(f), run_ids(new)) != ids_before:
             RUN_OBJECTS_REPLACED[0] += 1
@@ -268,7 +270,7 @@ def oracle(c, model_reply=None):
             # returns for the same request, and .s / len() agree with that value; operands and their views are unchanged
             # (run boundaries are representation, not part of the footprint)
             try:
-                want = wire.cells_of_chunks(wire.dec_fmt(model_reply[3:]))
+                want = wire.eff_cells_of_chunks(wire.dec_fmt(model_reply[3:]))
                 if got == want and rs == "".join(ch for ch, _ in want) and rl == len(want):
                     fp = "D27"
             except Exception:  # noqa: BLE001
@@ -334,7 +336,7 @@ def judge(ctx, cases, impl_out=None, tagfn=None):
                   tag=(tag(c) + ("/esc-str" if c["new"][0] == "s" and "\x1b" in c["new"][1] else "")) if tagfn else "search")
         if w:
             fp = w[1]
-            if fp is not None and impl_out is not None and model[i] is not None and canon_cells(impl_out[i]) != canon_cells(model[i]):
+            if fp is not None and impl_out is not None and model[i] is not None and canon_eff_cells(impl_out[i]) != canon_eff_cells(model[i]):
                 fp = None       # model and code disagree (on cells) on this very case: judge it without the footprint
             ctx.violation(w[0], c, fp)
             if not tagfn and len([v for v in ctx.violations if v["footprint"] is None]) > 50:
@@ -353,10 +355,10 @@ def in_statement(c):
 
 def check(ctx):
     cases = mk_cases(ctx)
-    # property level: the per-character cells of the result (what the statement speaks about)
+    # property level: the per-character cells of the result with their EFFECTIVE formatting (what the statement speaks about)
     inside = [c for c in cases if in_statement(c)]
-    out_in = ctx.tie("C09/splice", inside, line, impl, canon_cells, canon_cells)
-    # representation level: the same runs (texts and attribute dicts) as the model, and the out-of-statement setitem cases
+    out_in = ctx.tie("C09/splice", inside, line, impl, canon_eff_cells, canon_eff_cells)
+    # representation level: the same runs (texts and RAW attribute dicts, explicit False included) as the model, and the out-of-statement setitem cases
     ctx.tie("C09/splice-runs", cases, line, impl, level="representation")
     judge(ctx, inside, out_in, tagfn=True)
     rest = [c for c in cases if not in_statement(c)]
